@@ -263,10 +263,12 @@ class TimedList(Generic[Item]):
             The appended ``TimedList``.
 
         """
+        # A single item is a row of mixed types: give its columns their own
+        # types back, else every column of the result becomes ``object``
         if isinstance(val, Series):
-            val = val.data.to_frame().T
+            val = val.data.to_frame().T.infer_objects()
         if isinstance(val, pd.Series):
-            val = pd.DataFrame(val).T
+            val = pd.DataFrame(val).T.infer_objects()
         if isinstance(val, TimedList):
             val = val.df
         obj = self.__class__(pd.concat([self.df, val], ignore_index=True))
